@@ -45,6 +45,8 @@ type tcase struct {
 	Dot  bool   `json:"dot"`
 	D    []int  `json:"d"`
 	Dec  int    `json:"dec"`
+	Cls  string `json:"cls"`
+	S    string `json:"s"`
 }
 
 func digitsStr(d []int) string {
@@ -97,6 +99,24 @@ func doParse(neg bool, ip, fp []int, dot bool, src string) {
 	ev := map[string]interface{}{"event": "Parse", "src": src, "s": s,
 		"lit":   map[string]interface{}{"neg": neg, "int": append([]int{}, ip...), "frac": append([]int{}, fp...), "dot": dot},
 		"panic": false, "ok": false, "out": numForm(nil)}
+	var out *big.Int
+	var err error
+	p, _ := codecutil.Try(func() { out, err = utility.StrToBigInt(s) })
+	ev["panic"] = p
+	if !p && err == nil {
+		ev["ok"] = true
+		ev["out"] = numForm(out)
+	}
+	emit(ev)
+}
+
+// doRaw offers a string as it is; its code points are logged for the monitor's grammar.
+func doRaw(cls, s, src string) {
+	codes := make([]int, 0, len(s))
+	for _, r := range s {
+		codes = append(codes, int(r))
+	}
+	ev := map[string]interface{}{"event": "ParseRaw", "src": src, "cls": cls, "s": s, "codes": codes, "panic": false, "ok": false, "out": numForm(nil)}
 	var out *big.Int
 	var err error
 	p, _ := codecutil.Try(func() { out, err = utility.StrToBigInt(s) })
@@ -319,12 +339,20 @@ func main() {
 		switch c.Op {
 		case "parse":
 			doParse(c.Neg, c.Int, c.Frac, c.Dot, "tlc")
+		case "raw":
+			doRaw(c.Cls, c.S, "tlc")
 		case "num":
 			doNum(bigOf(c.Neg, c.D), "tlc")
 		case "rescale":
 			doRescale(bigOf(c.Neg, c.D), c.Dec, "tlc")
 		default:
 			vutil.Fatalf("unknown case op %q", c.Op)
+		}
+	}
+	if *salt == 0 {
+		// digits outside ASCII (cannot be written in a TLA+ module)
+		for _, s := range []string{"\u0661\u0662", "\uff11\uff12", "1\u0662", "\u0967", "1\u00a00"} {
+			doRaw("unicode", s, "driver")
 		}
 	}
 	rng := vutil.Rng(18 + 1000**salt)
@@ -342,6 +370,13 @@ func main() {
 			ip[0] = 1 + rng.Intn(9)
 		}
 		doParse(rng.Intn(4) == 0, ip, randDigits(rng, fl), fl > 0, "random")
+		// a zero-padded whole or fractional amount
+		z := strings.Repeat("0", 1+rng.Intn(4))
+		raw := z + digitsStr(randDigits(rng, 1+rng.Intn(20)))
+		if rng.Intn(2) == 0 {
+			raw += "." + digitsStr(randDigits(rng, 1+rng.Intn(18)))
+		}
+		doRaw("leadzero", raw, "random")
 	}
 	concRan := 0
 	if *concRounds > 0 {
@@ -366,5 +401,5 @@ func main() {
 	}
 	tr.Close()
 	fmt.Printf("c18: conc_conversions=%d events=%d parse=%d format=%d roundtrip=%d rescale=%d ethvalue=%d\n", concRan, tr.N,
-		counts["Parse"], counts["Format"], counts["RoundTrip"], counts["Rescale"], counts["EthValue"])
+		counts["Parse"]+counts["ParseRaw"], counts["Format"], counts["RoundTrip"], counts["Rescale"], counts["EthValue"])
 }
